@@ -28,8 +28,14 @@ def board(draw, play_prob=3):
     if res is not None:
         plays = draw(PL.PLAYS)
         cards, _ = PL.script_cards(owner, res[2], res[0] % 5, plays)
-    return {'id': draw(ID_TEXT), 'dealer': dealer, 'vul': draw(st.sampled_from(GB.VULS)), 'owner': owner,
-            'dda': draw(st.one_of(st.none(), st.none(), GB.DDA)), 'calls': calls, 'cards': cards}
+    b = {'id': draw(ID_TEXT), 'dealer': dealer, 'vul': draw(st.sampled_from(GB.VULS)), 'owner': owner,
+         'dda': draw(st.one_of(st.none(), st.none(), GB.DDA)), 'calls': calls, 'cards': cards}
+    if kind == 0 and draw(st.integers(0, 2)) == 0:
+        # a board whose setting leaves the deal to the table manager (BoardSetting(hands=None, dealer=..., vul=..., id=...)):
+        # dealer, vulnerability and id are still the configured ones; such boards are passed out here (the scripted clients
+        # cannot know their cards in advance)
+        b['server_deals'] = True
+    return b
 
 
 ALERT = st.sampled_from([' Alert.', ' alert.', ' ALERT. ', '  Alert.  '])
